@@ -103,6 +103,12 @@ def run_case(case):
             label = "batch %s over %s pre-memoized %s raise_first=%s presentation %s store %s" % (
                 batch, kinds, pre, raise_first, pres, skind)
             out["sets"]["presentations"].add("%s/%s/%s" % (pres, skind, raise_first))
+            # every third batch: the function carries context arguments of its own (individual calls and the batch alike)
+            P = ffuncs.pair
+            if (case["idx"] + b) % 3 == 0:
+                P = ffuncs.pair.with_context_args({"tenant": b, "asof": ["2020-01-01"]})
+                label += " under context arguments"
+                out["obs"]["batches_under_context_arguments"] += 1
 
             def mk(tag):
                 if skind == "memory":
@@ -113,8 +119,8 @@ def run_case(case):
             stB = mk("B")
             env.set_env(sc.path("envB"), default_storage=stB)
             for k in pre:
-                outcome_of(lambda: ffuncs.pair(prefix, k))
-            indiv = [outcome_of(lambda k=k: ffuncs.pair(prefix, k)) for k in batch]
+                outcome_of(lambda: P(prefix, k))
+            indiv = [outcome_of(lambda k=k: P(prefix, k)) for k in batch]
             stateB = store_state(stB, ffuncs.pair)
             # ---- batch store
             stA = mk("A")
@@ -124,19 +130,19 @@ def run_case(case):
                 cold_ids = {rid(k) for k in cold}
                 env.set_env(sc.path("envA0"), default_storage=env.fs_backend(sc.path("A%d" % b)))
                 for k in cold:
-                    outcome_of(lambda: ffuncs.pair(prefix, k))
+                    outcome_of(lambda: P(prefix, k))
                 out["obs"]["elements_cold_in_cache"] += len(cold)
             env.set_env(sc.path("envA"), default_storage=stA)
             for k in pre:
                 if skind != "fs+cache" or rid(k) not in cold_ids:
-                    outcome_of(lambda: ffuncs.pair(prefix, k))
+                    outcome_of(lambda: P(prefix, k))
             mark = REC.mark()
             if pres == "full":
-                call = lambda: ffuncs.pair.call_batch([{"prefix": prefix, "k": k} for k in batch], raise_first_exception=raise_first)
+                call = lambda: P.call_batch([{"prefix": prefix, "k": k} for k in batch], raise_first_exception=raise_first)
             elif pres == "partial_pos":
-                call = lambda: ffuncs.pair.partial(prefix).call_batch([{"k": k} for k in batch], raise_first_exception=raise_first)
+                call = lambda: P.partial(prefix).call_batch([{"k": k} for k in batch], raise_first_exception=raise_first)
             elif pres == "partial_name":
-                call = lambda: ffuncs.pair.partial(prefix=prefix).call_batch([{"k": k} for k in batch], raise_first_exception=raise_first)
+                call = lambda: P.partial(prefix=prefix).call_batch([{"k": k} for k in batch], raise_first_exception=raise_first)
             else:
                 # the range is any iterable: sequences, views and one-shot iterators
                 rkind = rng.choice(["list", "tuple", "generator", "iter", "reversed", "map", "dict_keys"] if len(pool) == 5 else
@@ -144,7 +150,7 @@ def run_case(case):
                 mk_range = {"list": lambda: list(batch), "tuple": lambda: tuple(batch), "generator": lambda: (k for k in batch),
                             "iter": lambda: iter(list(batch)), "reversed": lambda: reversed(list(reversed(batch))),
                             "map": lambda: map(int, [str(k) for k in batch]), "dict_keys": lambda: dict.fromkeys(batch).keys()}[rkind]
-                call = lambda: ffuncs.pair.partial(prefix).map_over_range(k=mk_range())
+                call = lambda: P.partial(prefix).map_over_range(k=mk_range())
                 raise_first = True
                 label += " range given as %s" % rkind
                 out["sets"]["presentations"].add("map/%s" % rkind)
